@@ -171,7 +171,11 @@ def replay_file(focus, path, quiet=False):
 def minimise_and_report(focus, seed, violation, ops, profile=None):
     from . import engine, shrink
     sig = (violation['oracle'], violation['sub'])
-    small, calls = shrink.minimise(ops, sig, lambda c: engine.run(focus, ops_list=c, profile=profile))
+    try:
+        small, calls = shrink.minimise(ops, sig, lambda c: engine.run(focus, ops_list=c, profile=profile))
+    except Exception as ex:       # a defect of the shrinker must never hide the violation it was shrinking
+        print("NOTE shrinker failed (%s: %s); reporting the unminimised history" % (type(ex).__name__, ex))
+        small = ops
     res = engine.run(focus, ops_list=small, profile=profile)
     v = res.violation if res.status == 'violation' else violation
     path = write_replay(focus, seed, small, v, minimised_from=len(ops), profile=profile)
